@@ -418,7 +418,7 @@ static void monitors(const op_t * op, const obs_t * b, const obs_t * a, int qcap
         if (oc == OC_COND_WRITE) {
             for (g = 1; g < NG; g++) if (op->a == g_cond[g]) {
                 uint16_t before = b->r[g_cond[g]], asked = op->kind == K_SET ? op->val : op->kind == K_SETBITS ? (uint16_t) (before | op->val) : op->kind == K_CLRBITS ? (uint16_t) (before & ~op->val) : a->r[g_cond[g]];
-                if (a->r[g_cond[g]] != asked)
+                if ((a->r[g_cond[g]] ^ asked) & 0x7fff) /* bit 15 of a SCPI status register is 'not used, always zero' (SCPI-99 20.1): a library may mask it */
                     find("C12:condition-write-lost", "%s(%s, 0x%04x) with the register at 0x%04x: it reads 0x%04x afterwards, 0x%04x was asked for (rising bits 0x%04x never reached the event register)", op->kind == K_SET ? "SCPI_RegSet" : op->kind == K_SETBITS ? "SCPI_RegSetBits" : "SCPI_RegClearBits",
                          regname[g_cond[g]], op->val, before, a->r[g_cond[g]], asked, (unsigned) (asked & ~before) & 0xffff);
             }
